@@ -16,6 +16,8 @@ CONSTANTS
   EmitEvery = 20
   Faults = {"cutsrc", "endsrc", "cutsink", "softcut"}
   WithBind = FALSE
+  AdvMsgs = {}
+  MaxAdv = 0
   MaxNow = 0
   WithBridge = FALSE
 INVARIANTS Emit NoViolation
